@@ -141,6 +141,71 @@ def check_heuristics(m, ctx, d):
 
 
 # ---------------------------------------------------------------------------------------------------------------
+# absolute echo check on a multi-segment base: EVERY line of EVERY block that echoes a segment thickness, a segment gradient
+# or the maximum temperature must denote what the input file says (run pairs cannot see an echo that is wrong in both runs)
+# ---------------------------------------------------------------------------------------------------------------
+
+def echo_expectations(entries):
+    """input entries {name: 'x u'} -> [(label regex, entry name)]"""
+    out = [(r'Maximum reservoir temperature', 'Maximum Temperature')]
+    for n in entries:
+        mt = re.match(r'(Thickness|Gradient) (\d+)$', n)
+        if mt:
+            out.append((rf'Segment {mt.group(2)}\s+{"Thickness" if mt.group(1) == "Thickness" else "Geothermal gradient"}', n))
+    return out
+
+
+def echo_line_faults(m, d, report, entries, prefs):
+    """-> [(entry name, unit written, label, line)] for echo lines that do not denote the entry"""
+    bad = []
+    for label, name in echo_expectations(entries):
+        x, _, u = entries[name].partition(' ')
+        for l in report.splitlines():
+            if re.match(r'\s*' + label + r'\s*:', l):
+                mm = m.LINE.match(l)
+                if not (mm and m.same_quantity(d, x, u or prefs[name], mm['num'], (mm['unit'] or '').strip())):
+                    bad.append((name, u or 'no unit', re.sub(r'\s+', ' ', l.split(':')[0].strip()), l.strip()))
+    return bad
+
+
+def check_echo_lines(m, ctx, d):
+    from . import configs
+    rnd = ctx.rng
+    dec = lambda lo, hi, k=2: format(rnd.randint(int(lo * 10 ** k), int(hi * 10 ** k)) / 10 ** k, 'g')
+    base = dict(configs.synthetic(rnd, enduse=1, plant=2, resmodel=4, econ=1, nseg=3, addons=False, overpressure=False))
+    base.update({'Number of Segments': '3', 'Gradient 1': dec(40, 60, 1), 'Gradient 2': dec(30, 39, 1), 'Gradient 3': dec(20, 29, 1),
+                 'Thickness 1': dec(1.1, 1.4), 'Thickness 2': dec(0.6, 0.9), 'Reservoir Depth': '3.5', 'Maximum Temperature': '400'})
+    prefs = {r['name']: r['pref'] for r in d['params']}
+    variants = [dict(base)]
+    for name in ('Thickness 1', 'Thickness 2'):
+        for u in ('kilometer', 'meter', 'ft', 'mile', 'centimeter', 'in'):
+            v = dict(base)
+            v[name] = f"{m.sig7(m.to_unit(d, F(base[name]), 'kilometer', u))} {u}"
+            variants.append(v)
+    variants.append({**base, 'Maximum Temperature': '400 degC'})
+    variants.append({**base, 'Gradient 2': base['Gradient 2'] + ' degC/km'})
+    if ctx.quick:
+        variants = variants[:1] + rnd.sample(variants[1:13], 6) + variants[13:]
+    res = runner.run_many(ctx, [runner.params_to_text(list(v.items())) for v in variants])
+    seen, lines = set(), 0
+    for v, r in zip(variants, res):
+        text = runner.params_to_text(list(v.items()))
+        if not r['ok'] or not r['report']:
+            ctx.note(f'echo-line base variant did not run: {str(r["error"])[:120]}')
+            continue
+        entries = {k: x for k, x in v.items() if k == 'Maximum Temperature' or re.match(r'(Thickness|Gradient) \d+$', k)}
+        lines += sum(1 for lab, _ in echo_expectations(entries) for l in r['report'].splitlines() if re.match(r'\s*' + lab + r'\s*:', l))
+        for name, u, label, line in echo_line_faults(m, d, r['report'], entries, prefs):
+            key = f'echo-line:{name}:{u}:{label}'
+            if key not in seen:
+                seen.add(key)
+                ctx.violate('property', key, f'the input says "{name}, {entries[name]}" and the report echoes "{line}"',
+                            inp={'part': 'echo-run', 'entry': f'{name}, {entries[name]}', 'input_file': text, 'entries': entries},
+                            expected=f'{entries[name]}', observed=line)
+    ctx.count('echo-lines-multi-segment', evaluations=lines, nontrivial_keys=[tuple(sorted(v.items()))[:0] or i for i, v in enumerate(variants)], runs=len(variants))
+
+
+# ---------------------------------------------------------------------------------------------------------------
 # HIP-RA-X whole runs: inputs re-expressed, output units requested
 # ---------------------------------------------------------------------------------------------------------------
 
@@ -439,5 +504,15 @@ def replay_more(m, ctx, d, inp):
         print('entry:', inp['entry'], '| echoed:', ml[0].strip() if ml else None)
         print('property', 'holds' if ok else 'VIOLATED', 'on this input')
         return 0 if ok else 1
+    if part == 'echo-run':
+        r = runner.run_many(ctx, [inp['input_file']])[0]
+        if not r['ok']:
+            print('run fails:', r['error']); print('property VIOLATED on this input'); return 1
+        prefs = {p['name']: p['pref'] for p in d['params']}
+        bad = echo_line_faults(m, d, r['report'], inp['entries'], prefs)
+        for b in bad:
+            print('  input:', b[0] + ',', inp['entries'][b[0]], '| echoed:', b[3])
+        print('property', 'VIOLATED' if bad else 'holds', 'on this input')
+        return 1 if bad else 0
     print('no replay for part', part, '(correspondence entries are re-evaluated by ./check C06 --tier quick)')
     return 1
